@@ -172,8 +172,15 @@ def generate(seed: int, tier: str) -> Dict[str, Any]:
                 ops.append({"op": "upsert_node", "gid": gid, "kind": "add_node", "node": {"id": "xn%d" % nid, "label": ro.choice(E.VOCAB), "tags": []}})
             elif kind == "add_episode":
                 nid += 1
+                # a quarter of the additions re-use the id of an episode that is already stored, with other content
+                # (a replayed reflection write, a re-import): still a memory addition, still a new answer
+                eid = "xe%d" % nid
+                if ro.chance(0.25):
+                    known = [e["id"] for e in (world.get("episodes") or [])] + [o["ep"]["id"] for o in ops if o.get("op") == "add_episode"]
+                    if known:
+                        eid = ro.choice(known)
                 ops.append({"op": "add_episode", "kind": "add_episode",
-                            "ep": {"id": "xe%d" % nid, "owner": ro.choice(agents + ["world"]), "text": " ".join(ro.sample(E.VOCAB, ro.randint(1, 3))),
+                            "ep": {"id": eid, "owner": ro.choice(agents + ["world"]), "text": " ".join(ro.sample(E.VOCAB, ro.randint(1, 3))),
                                    "ts": E.iso_from_ms(now - ro.choice([0, 86_400_000, 40 * 86_400_000])).replace("+00:00", "Z"), "vec": "text"}})
             elif kind == "cfg":
                 path, vals = ro.choice(CFG_CHANGES)
@@ -291,8 +298,19 @@ def _run_arm(program: Dict[str, Any], keep: Optional[Tuple[str, ...]], stats: Op
         tv.pop("tier_sequence", None)
         cur["t2"] = tv
         cur["t1_hits"] = int((getattr(t1, "metrics", {}) or {}).get("cache_hits", 0) or 0)
-        owners = {str(e.get("id")): e.get("owner") for e in getattr(state.get("mem_index"), "_eps", [])}
-        cur["owners"] = [owners.get(str(getattr(x, "id", None))) for x in getattr(t2, "retrieved", []) or []]
+        # ids may be stored more than once (a re-used id under another owner): a hit is judged by its own owner when it
+        # carries one, else it is a leak only if NO stored episode of that id belongs to the agent
+        owners: Dict[str, List[Any]] = {}
+        for e in getattr(state.get("mem_index"), "_eps", []):
+            owners.setdefault(str(e.get("id")), []).append(e.get("owner"))
+        me = getattr(ctx, "agent_id", None)
+        cur["owners"] = []
+        for x in getattr(t2, "retrieved", []) or []:
+            own = getattr(x, "owner", None)
+            if own is None:
+                cands = owners.get(str(getattr(x, "id", None))) or [None]
+                own = me if me in cands else cands[-1]
+            cur["owners"].append(own)
         return orig(ctx, state, t1, t2, t4, apply, log_fn)
 
     orig = health.check_and_log
